@@ -94,7 +94,7 @@ pub fn run(ctx: &mut Ctx) {
     let (mut is, names) = new_iset();
     let cache = sorted_cache(&is);
     let judge = Judge { frame: true, reference: false };
-    let variations = ctx.n(120, 1200);
+    let variations = ctx.n(120, 8000);
     let mut case: u64 = 0;
     let mut patterns: u64 = 0;
     for name in names.iter() {
